@@ -70,6 +70,11 @@ var c14Pairs = [][2]string{
 	{`{{ x | pf }}`, `{{ pf(x) }}`},
 	{`{{ x | pf: a }}`, `{{ pf(x, a) }}`},
 	{`{{ x | vv }}`, `{{ vv(x) }}`},
+	// user functions that shadow built-in names resolve the same way in every position
+	{`{{ x | lower }}`, `{{ lower(x) }}`},
+	{`{{ x | replace: a, b }}`, `{{ replace(x, a, b) }}`},
+	{`{{ x | h | lower }}`, `{{ lower(h(x)) }}`},
+	{`{{ a | replace(x, _, b) }}`, `{{ replace(x, a, b) }}`},
 }
 
 func c14Vars(x, a, b string) VarMap {
@@ -87,6 +92,8 @@ func c14Vars(x, a, b string) VarMap {
 	vars.SetFunc("js", c18IsSetPattern)
 	vars.Set("pf", func(format string, rest ...interface{}) string { return "pf(" + format + ";" + ndItoa(len(rest)) + ")" })
 	vars.Set("vv", func(rest ...string) string { return "vv(" + strings.Join(rest, ",") + ")" })
+	vars.Set("lower", func(s string) string { return "myLower(" + s + ")" })
+	vars.Set("replace", func(s, a, b string) string { return "myReplace(" + s + "," + a + "," + b + ")" })
 	return vars
 }
 
@@ -305,7 +312,7 @@ func H_C14_builtins() {
 	case "trimSpace":
 		src, want = `<{{ trimSpace(s) }}>`, "<"+strings.TrimSpace(s)+">"
 	case "len":
-		src, want = `{{ len(s) }}{{ len(sl) }}{{ len(m) }}`, "221"
+		src, want = `{{ len(s) }}{{ len(sl) }}{{ len(m) }}{{ len(pickI()) }}{{ 0 | pickI | len }}{{ len(ptrSl) }}{{ len(str5()) }}`, "2212225"
 	case "ints":
 		src, want = `{{ range ints(2, 5) }}{{ . }}{{ end }}`, "234"
 	case "map":
@@ -324,6 +331,9 @@ func H_C14_builtins() {
 	vars.Set("s", s)
 	vars.Set("sl", []int{1, 2})
 	vars.Set("m", map[string]int{"a": 1})
+	vars.Set("pickI", func(...int) interface{} { return []int{7, 8} })
+	vars.Set("ptrSl", &[]int{1, 2})
+	vars.Set("str5", func() interface{} { return "hello" })
 	out, err := hxExec(set, "/m.jet", vars, nil)
 	vfReach("rendered")
 	vfAssert(err == nil, "renders")
